@@ -27,6 +27,7 @@ import (
 	old_faithful_grpc "github.com/rpcpool/yellowstone-faithful/old-faithful-proto/old-faithful-grpc"
 	"github.com/rpcpool/yellowstone-faithful/slottools"
 	solanatxmetaparsers "github.com/rpcpool/yellowstone-faithful/solana-tx-meta-parsers"
+	"github.com/rpcpool/yellowstone-faithful/third_party/solana_proto/confirmed_block"
 	"github.com/rpcpool/yellowstone-faithful/tooling"
 	"golang.org/x/sync/errgroup"
 	"google.golang.org/grpc"
@@ -752,13 +753,19 @@ func (multi *MultiEpoch) processSlotTransactions(
 		}
 
 		if !(*filter.Failed) { // If failed is false, we should filter out failed transactions
-			err := getErr(meta)
-			if err != nil {
+			// NOTE: a transaction without metadata is not known to have failed (same outcome whether the
+			// transaction comes from the block or from the gsfa index).
+			if meta != nil && getErr(meta) != nil {
 				return false
 			}
 		}
 
-		if !gsfaReadersLoaded { // Only needed if gsfaReaders not loaded, otherwise handled in the main branch
+		if len(filter.AccountInclude) > 0 {
+			// NOTE: also checked when the transactions come from the gsfa index: that index only stores a hash of
+			// the address, so it can return transactions of another address.
+			// An account is included if it is among the static keys or among the addresses loaded from lookup
+			// tables (same as StreamBlocks and as the gsfa index).
+			loadedKeys := getLoadedAccountKeys(meta)
 			hasOne := false
 			for _, acc := range filter.AccountInclude {
 				pkey := solana.MustPublicKeyFromBase58(acc)
@@ -767,7 +774,7 @@ func (multi *MultiEpoch) processSlotTransactions(
 					klog.V(2).Infof("Failed to check if transaction %v has account %s", tx, acc)
 					return false
 				}
-				if ok {
+				if ok || loadedKeys.Has(pkey) {
 					hasOne = true
 					break // Found at least one included account, no need to check others
 				}
@@ -816,7 +823,7 @@ func (multi *MultiEpoch) processSlotTransactions(
 			block, err := multi.GetBlock(ctx, &old_faithful_grpc.BlockRequest{Slot: slot})
 			if err != nil {
 				if status.Code(err) == codes.NotFound {
-					return nil
+					continue // skipped slot (or epoch not available): go on with the next slot
 				}
 				return err
 			}
@@ -833,7 +840,7 @@ func (multi *MultiEpoch) processSlotTransactions(
 					return status.Errorf(codes.Internal, "Failed to parse transaction meta: %v", err)
 				}
 
-				if !filterOutTxn(*txn, meta) {
+				if filterOutTxn(*txn, meta) { // NOTE: filterOutTxn returns true for the transactions to KEEP
 
 					txResp := new(old_faithful_grpc.TransactionResponse)
 					txResp.Transaction = new(old_faithful_grpc.Transaction)
@@ -842,6 +849,8 @@ func (multi *MultiEpoch) processSlotTransactions(
 						txResp.Transaction.Transaction = tx.Transaction
 						txResp.Transaction.Meta = tx.Meta
 						txResp.Transaction.Index = tx.Index
+						txResp.Index = tx.Index
+						txResp.Slot = slot
 
 						epochNumber := slottools.CalcEpochForSlot(slot)
 						epochHandler, err := multi.GetEpoch(epochNumber)
@@ -949,7 +958,7 @@ func (multi *MultiEpoch) processSlotTransactions(
 							return
 						}
 
-						if !filterOutTxn(tx, meta) {
+						if filterOutTxn(tx, meta) { // NOTE: filterOutTxn returns true for the transactions to KEEP
 							txResp := new(old_faithful_grpc.TransactionResponse)
 							txResp.Transaction = new(old_faithful_grpc.Transaction)
 							{
@@ -1029,6 +1038,14 @@ func (multi *MultiEpoch) processSlotTransactions(
 
 		return nil
 	}
+}
+
+// getLoadedAccountKeys returns the addresses loaded from address lookup tables, as recorded in the metadata.
+func getLoadedAccountKeys(meta any) solana.PublicKeySlice {
+	if status, ok := meta.(*confirmed_block.TransactionStatusMeta); ok && status != nil {
+		return append(byteSlicesToKeySlice(status.LoadedReadonlyAddresses), byteSlicesToKeySlice(status.LoadedWritableAddresses)...)
+	}
+	return nil
 }
 
 type txBuffer struct {
